@@ -539,6 +539,12 @@ func (e *Enc) computeSites() {
 		if k, ok := e.siteKey(in); ok && !(inlined && k == "return ") {
 			groups[k] = append(groups[k], site{in, path, blk, idx})
 		}
+		// sends / receives qualified by the channel's field or variable name ("send respCh#0") get their own numbering:
+		// stable when sends on other channels are added, removed or moved
+		if cn := chanOperandName(in); cn != "" {
+			k := "fchan " + cn
+			groups[k] = append(groups[k], site{in, path, blk, idx})
+		}
 		// package-qualified callee names ("call hmac.New#0") get their own numbering
 		var c *ssa.CallCommon
 		switch in := in.(type) {
@@ -571,6 +577,7 @@ func (e *Enc) computeSites() {
 	}
 	e.siteOrd = map[ssa.Instruction]int{}
 	e.siteOrdQ = map[ssa.Instruction]int{}
+	e.siteOrdF = map[ssa.Instruction]int{}
 	for gk, g := range groups {
 		sort.SliceStable(g, func(i, j int) bool {
 			if less, decided := lessPath(g[i].path, g[j].path); decided {
@@ -587,11 +594,73 @@ func (e *Enc) computeSites() {
 		for n, s := range g {
 			if strings.HasPrefix(gk, "qcall ") {
 				e.siteOrdQ[s.in] = n
+			} else if strings.HasPrefix(gk, "fchan ") {
+				e.siteOrdF[s.in] = n
 			} else {
 				e.siteOrd[s.in] = n
 			}
 		}
 	}
+}
+
+// chanOperandName: "send respCh" / "recv closeCh": the kind of a channel operation together with the name of the field,
+// variable or parameter the channel is read from ("" when the operand has no such name).
+func chanOperandName(in ssa.Instruction) string {
+	var ch ssa.Value
+	kind := ""
+	switch in := in.(type) {
+	case *ssa.Send:
+		ch, kind = in.Chan, "send"
+	case *ssa.UnOp:
+		if in.Op == token.ARROW {
+			ch, kind = in.X, "recv"
+		}
+	}
+	if ch == nil {
+		return ""
+	}
+	n := valueName(ch)
+	if n == "" {
+		return ""
+	}
+	return kind + " " + n
+}
+
+// valueName: the field / variable / parameter name a value is read from.
+func valueName(v ssa.Value) string {
+	switch v := v.(type) {
+	case *ssa.Parameter:
+		return v.Name()
+	case *ssa.FreeVar:
+		return v.Name()
+	case *ssa.ChangeType:
+		return valueName(v.X)
+	case *ssa.MakeInterface:
+		return valueName(v.X)
+	case *ssa.UnOp:
+		if v.Op != token.MUL {
+			return ""
+		}
+		switch a := v.X.(type) {
+		case *ssa.FieldAddr:
+			if pt, ok := a.X.Type().Underlying().(*types.Pointer); ok {
+				if st, ok := pt.Elem().Underlying().(*types.Struct); ok {
+					return st.Field(a.Field).Name()
+				}
+			}
+		case *ssa.Alloc:
+			return a.Comment
+		case *ssa.Global:
+			return a.Name()
+		case *ssa.FreeVar:
+			return a.Name()
+		}
+	case *ssa.Field:
+		if st, ok := v.X.Type().Underlying().(*types.Struct); ok {
+			return st.Field(v.Field).Name()
+		}
+	}
+	return ""
 }
 
 func (e *Enc) siteOrdinal(in ssa.Instruction, kind, name string) int {
